@@ -29,7 +29,8 @@ class LoopSpec:
 
 class Case:
     def __init__(self, label, params, requires=None, ensures=None, raises=None, loops=None, exact_integer=False,
-                 must_return=None, result_name="result", ghost=None, max_paths=400, axioms=None):
+                 must_return=None, result_name="result", ghost=None, max_paths=400, axioms=None, yields=None,
+                 native_gen=None, native_call=None, size_bounded=False):
         self.label, self.params = label, params
         self.requires, self.ensures = requires, ensures
         self.raises = raises or {}
@@ -39,6 +40,10 @@ class Case:
         self.ghost = ghost
         self.max_paths = max_paths
         self.axioms = axioms        # (old, result, new) -> list of z3 facts (instances of spec-function axioms)
+        self.yields = yields        # element type of the yielded values when the function is a generator
+        self.native_gen = native_gen
+        self.native_call = native_call
+        self.size_bounded = size_bounded
 
 
 class FnContract:
@@ -58,12 +63,21 @@ def module_name(file):
 
 def realize(world, data, mod):
     """concretized counter-model data -> real python objects of the module under test"""
+    if isinstance(data, dict) and "__classref__" in data:
+        return getattr(mod, data["__classref__"])
     if isinstance(data, dict) and "__class__" in data:
         cls = getattr(mod, data["__class__"])
-        obj = cls.__new__(cls)
-        for k, v in data.items():
-            if k != "__class__":
-                setattr(obj, k, realize(world, v, mod))
+        fields = {k: realize(world, v, mod) for k, v in data.items() if k != "__class__"}
+        ci = world.classes.get(data["__class__"])
+        if ci is not None:
+            for k, t in ci.fields.items():     # sequences declared as tuples come back as tuples
+                if t.kind == "seq" and isinstance(fields.get(k), list) and t.kw.get("tuple", True):
+                    fields[k] = tuple(fields[k])
+        if issubclass(cls, tuple):
+            return cls(**fields)
+        obj = object.__new__(cls)
+        for k, v in fields.items():
+            object.__setattr__(obj, k, v)
         return obj
     if isinstance(data, list):
         return [realize(world, x, mod) for x in data]
@@ -109,9 +123,14 @@ def verify_case(fc: FnContract, case: Case, timeout_ms=10000, budget_s=240):
                 outcome, value = "return", None
                 try:
                     env = it.bind(fn, [args[p] for p in case.params], {})
+                    if case.yields is not None:
+                        from .engine import SeqV as _SeqV
+                        env["yielded"] = _SeqV(z3.Empty(z3.SeqSort(world.sort_of(case.yields))), case.yields)
                     it.exec_block(fn.body, env)
+                    if case.yields is not None:
+                        value = env["yielded"]
                 except ReturnExc as r:
-                    value = r.value
+                    value = r.value if case.yields is None else env["yielded"]
                 except RaiseExc as r:
                     outcome, value = "raise", r.name
                 ns_old, ns_new = NS(old), NS(args)
@@ -151,7 +170,8 @@ def verify_case(fc: FnContract, case: Case, timeout_ms=10000, budget_s=240):
         except VCFailed as f:
             stats["vcs"] += ctx.n_vcs
             cm = {p: concretize(world, old[p], f.model) for p in case.params}
-            return dict(status=REFUTED, label=f.label, model=cm, detail=f.detail, stats=stats, decisions=ctx.decisions)
+            return dict(status=REFUTED, label=f.label, model=cm, detail=f.detail, stats=stats, decisions=ctx.decisions,
+                        havocked=ctx.havocked or bool(world.extra_builtins))
         except VCUnknown as u:
             stats["vcs"] += ctx.n_vcs
             return dict(status=UNDECIDED, detail=f"solver unknown at {u.label}: {u.detail}", stats=stats)
@@ -169,6 +189,10 @@ def verify_case(fc: FnContract, case: Case, timeout_ms=10000, budget_s=240):
 def replay_case(fc: FnContract, case: Case, model):
     """run the REAL function on the counter-model and evaluate the executable contract"""
     world = fc.world
+    if case.native_gen is not None:
+        # spec functions are uninterpreted in the VCs, so a model may violate their real meaning (e.g. a cached total that is
+        # not the sum): the case's repair hook re-derives such fields from the primary data before the native run
+        model = case.native_gen(None, model)
     mod = importlib.import_module(module_name(world.file))
     import copy
     args = {p: realize(world, model[p], mod) for p in case.params}
@@ -190,7 +214,15 @@ def replay_case(fc: FnContract, case: Case, model):
     try:
         if case.requires is not None and not S.truth(case.requires(NS(args))):
             return dict(confirmed=False, note="counter-model violates the precondition when evaluated natively")
-        result = f(*[args[p] for p in case.params if case.params[p].kind != "classref"])
+    except Exception as ex:  # pylint: disable=broad-except
+        return dict(confirmed=None, note=f"executable precondition failed to evaluate: {type(ex).__name__}: {ex}", inputs=S.show(old))
+    try:
+        if case.native_call is not None:
+            result = case.native_call(mod, args)
+        else:
+            result = f(*[args[p] for p in case.params if case.params[p].kind != "classref"])
+        if case.yields is not None:
+            result = list(result)
     except Exception as ex:  # pylint: disable=broad-except
         name = type(ex).__name__
         allowed = case.raises.get(name)
@@ -206,6 +238,64 @@ def replay_case(fc: FnContract, case: Case, model):
                     observed=S.show(result))
     return dict(confirmed=not ok, observed=S.show(result), inputs=S.show(old),
                 expected="postcondition of the contract (see obligation name)")
+
+
+def gen_value(world, t, rng, depth=0):
+    """random concrete data of a type descriptor (same shape as concretized models)"""
+    k = t.kind
+    if k == "int":
+        r = rng.random()
+        if r < 0.75:
+            return rng.randint(-2, 6)
+        if r < 0.95:
+            return rng.randint(-40, 60)
+        return rng.choice([2 ** 53 + 1, -(2 ** 40), 10 ** 9 + 7])
+    if k == "bool":
+        return rng.random() < 0.5
+    if k == "float":
+        if t.kw.get("integral"):
+            return float(rng.randint(-5, 9))
+        return rng.choice([rng.randint(-5, 9) + 0.5, rng.uniform(-3, 3), float(rng.randint(-5, 9))])
+    if k == "label":
+        return rng.choice(["L0", "L1", "L2", "L3", "L4", "L5"])
+    if k == "none":
+        return None
+    if k == "const":
+        return t.args[0]
+    if k == "classref":
+        return {"__classref__": t.args[0]}
+    if k == "rec":
+        ci = world.classes[t.args[0]]
+        ov = t.kw.get("override", {})
+        return {"__class__": ci.name, **{f: gen_value(world, ov.get(f, ft), rng, depth + 1) for f, ft in ci.fields.items()}}
+    if k == "tuple":
+        return tuple(gen_value(world, a, rng, depth + 1) for a in t.args)
+    if k == "list":
+        return [gen_value(world, t.args[0], rng, depth + 1) for _ in range(t.args[1])]
+    if k == "seq":
+        n = rng.choice([0, 1, 1, 2, 2, 3, 3, 4, 5])
+        return [gen_value(world, t.args[0], rng, depth + 1) for _ in range(n)]
+    raise Unsupp(f"no generator for {t}")
+
+
+def search_counterexample(fc, case, seed=0, tries=3000, budget_s=20):
+    """bounded native search with the executable contract (used when a VC on a havocked path fails and the solver's
+    model is not a reachable input): returns (replay-dict, model) of a confirmed violation or None"""
+    import random
+    rng = random.Random(seed)
+    t0 = time.time()
+    for _ in range(tries):
+        if time.time() - t0 > budget_s:
+            break
+        try:
+            m = {p: gen_value(fc.world, t, rng) for p, t in case.params.items()}
+            rp = replay_case(fc, case, m)
+        except Exception:  # pylint: disable=broad-except
+            continue
+        if rp.get("confirmed"):
+            rp["found_by"] = "bounded native search with the executable contract"
+            return rp, m
+    return None
 
 
 def scale_ints(data, k):
@@ -257,6 +347,16 @@ def obligations_for(pid, fc: FnContract, tier="quick", finding=None, timeout=Non
                         rp, r["model"] = replay_float_exact(fc, case, r["model"])
                     else:
                         rp = replay_case(fc, case, r["model"])
+                        if not rp.get("confirmed") and r.get("havocked"):
+                            # the failed VC sits behind a loop cut / assumed callee contract: the model's state need not be
+                            # reachable.  The obligation is refuted all the same; look for a real failing input natively.
+                            found = search_counterexample(fc, case)
+                            if found:
+                                rp, r["model"] = found
+                            else:
+                                rp = dict(confirmed=None, note="VC refuted on a path through a loop invariant / callee contract; the "
+                                          "solver's state is not a reachable input and the bounded native search found none",
+                                          solver_state=S.show(r["model"]))
                 except Exception:  # pylint: disable=broad-except
                     rp = dict(confirmed=None, note="replay crashed: " + traceback.format_exc()[-800:])
                 return Outcome(REFUTED, "z3", f"VC {r['label']} refuted: {r.get('detail', '')}", witness=dict(inputs=S.show(r["model"]), vc=r["label"]),
@@ -275,7 +375,7 @@ def obligations_for(pid, fc: FnContract, tier="quick", finding=None, timeout=Non
 
         src_q = fc.qualname
         out.append(Obligation(name, "post", fn, func=(fc.world.file, src_q.replace(".setter", "")), finding=finding if not isinstance(finding, dict) else finding.get(case.label),
-                              replay=replay, timeout=timeout or (300 if tier == "quick" else 1200),
+                              replay=replay, timeout=timeout or (300 if tier == "quick" else 1200), size_bounded=case.size_bounded,
                               sample=f"all paths of {fc.qualname} [{case.label}]: pre => post / allowed exceptions / loop invariants"))
     return out
 
@@ -284,6 +384,7 @@ def lemma(pid, name, vars_, goal, *, assumptions=(), timeout_ms=20000, sample=No
     """a lemma over contracts/spec functions: forall vars. assumptions => goal (z3; cvc5 on unknown)"""
 
     def fn():
+        from .engine import fresh_check
         s = z3.Solver()
         s.set("timeout", timeout_ms)
         for a in assumptions:
@@ -291,6 +392,16 @@ def lemma(pid, name, vars_, goal, *, assumptions=(), timeout_ms=20000, sample=No
         s.add(z3.Not(goal))
         t = time.time()
         r = s.check()
+        if r == z3.unknown:
+            # z3's sequence/NIA procedures are sensitive to term structure and seeds: re-parse, then vary the seed
+            for seed in (0, 1, 2, 3):
+                z3.set_param("smt.random_seed", seed)
+                r = fresh_check(list(assumptions) + [z3.Not(goal)], timeout_ms)
+                if r != z3.unknown:
+                    break
+            z3.set_param("smt.random_seed", 0)
+            if r == z3.sat:
+                r = z3.unknown      # a model from the re-parsed problem is not extracted; fall through to cvc5/undecided
         if r == z3.unsat:
             return Outcome(DISCHARGED, "z3", f"{time.time() - t:.2f}s")
         if r == z3.sat:
@@ -312,7 +423,7 @@ def cvc5_check(solver, timeout_s=30):
         f.write(smt)
         f.flush()
         try:
-            p = subprocess.run(["/usr/bin/cvc5", "--tlimit", str(timeout_s * 1000), "--nl-cov", f.name], capture_output=True, text=True,
+            p = subprocess.run(["/usr/bin/cvc5", "--tlimit", str(timeout_s * 1000), "--strings-exp", f.name], capture_output=True, text=True,
                                timeout=timeout_s + 5)
             return p.stdout.strip().split("\n")[0] if p.stdout.strip() else "error:" + p.stderr[:100]
         except Exception as ex:  # pylint: disable=broad-except
